@@ -555,7 +555,7 @@ func replayServe(c *ctx, ops []string) {
 func genServe(c *ctx) {
 	// the whole server through server.Start first: both sections with an empty chain, a chain that is empty after the
 	// protocol filter, one pass-through plugin; then one section alone
-	for _, op := range []string{fmt.Sprintf("svbig 6 %d", c.rng.Int63n(1<<40)), fmt.Sprintf("svbig 4 %d", c.rng.Int63n(1<<40)), "svstart 46 empty", "svstart 46 other", "svstart 46 dns", "svstart 6 empty", "svstart 4 other", "svl2 16"} {
+	for _, op := range []string{fmt.Sprintf("svbig 6 %d", c.rng.Int63n(1<<40)), fmt.Sprintf("svbig 4 %d", c.rng.Int63n(1<<40)), "svstart 4 range2", "svstart 6 probe", "svstart 46 empty", "svstart 46 other", "svstart 46 dns", "svstart 6 empty", "svstart 4 other", "svl2 16"} {
 		if c.count < c.n {
 			replayServe(c, []string{op})
 		}
